@@ -443,6 +443,12 @@ def replay(path):
         return 2
     w = r.get("witness", {})
     sig = r.get("signature", "")
+    known_what = None
+    if os.path.exists(KNOWN):
+        with open(KNOWN) as f:
+            for k in json.load(f):
+                if k.get("property") == prop and k.get("status") == "known" and k.get("signature") == sig:
+                    known_what = k.get("what", "")
     tmpdir = os.path.join(TARGET, "run", "replay_%d" % os.getpid())
     os.makedirs(tmpdir, exist_ok=True)
     try:
@@ -468,6 +474,9 @@ def replay(path):
             sigs = sorted(set(v["signature"] for v in summ.get("violations", [])))
             print("replay (full single-shard run): signatures observed: %s" % sigs)
             if sig in sigs:
+                if known_what is not None:
+                    print("KNOWN-FINDING: property=%s %s [%s]" % (prop, known_what, sig))
+                    return 0
                 print("VIOLATION property=%s replay=%s" % (prop, path))
                 return 1
             return 0
